@@ -230,7 +230,7 @@ func writeAttr(b *bolt.Bucket, attr *metadata.Attr) error {
 		}
 		var xbkt *bolt.Bucket
 		for k, v := range attr.Xattrs {
-			if k == firstK || len(v) == 0 {
+			if k == firstK {
 				continue
 			}
 			if xbkt == nil {
